@@ -157,14 +157,21 @@ def verify_function(reg, contract, prefix="", fixed=None):
             ctx.assume(st, spec_eval(st, node))
         ctx.verifying_fq_transparent = None
         ex.run_ghost(st, "entry")
-        for idx, stmt in enumerate(body):
-            if st.dead:
-                break
-            ex.run_block(st, [stmt])
-            ex.run_ghost(st, "after_stmt%d" % (idx + 1))
+        fallthrough = []
+        if getattr(contract, "split_body", False):
+            # path splitting: every `if` of the top-level block forks the rest of the body; postconditions are proved per path
+            fallthrough = ex.run_block_split(st, list(body))
+        else:
+            for idx, stmt in enumerate(body):
+                if st.dead:
+                    break
+                ex.run_block(st, [stmt])
+                ex.run_ghost(st, "after_stmt%d" % (idx + 1))
+            if not st.dead:
+                fallthrough = [st]
         outs = list(fr.returns)
-        if not st.dead:
-            outs.append((st, NONE))
+        for o in fallthrough:
+            outs.append((o, NONE))
         for (o, v) in outs:
             o.env["result"] = v
             o.defd["result"] = z3.BoolVal(True)
